@@ -403,46 +403,46 @@ def FiberMutex_unlock : String :=
   "unlock() { (_occupied = false); OnSync(this, kUnlock, 1); _queue.NotifyOne() }"
 
 def FiberTimedMutex_TimedWaitHelper : String :=
-  "TimedWaitHelper(timeout) { var r = true; if (_occupied) { (r = (_queue.Wait(timeout) == Ready)) }; if (r) { (_occupied = true) }; return r }"
+  "TimedWaitHelper(timeout) { var r = true; while ((r && _occupied)) { (r = (_queue.Wait(timeout) == Ready)) }; if (r) { (_occupied = true) }; return r }"
 
 def FiberTimedMutex_try_lock_for : String :=
-  "try_lock_for(timeout_duration) { return TimedWaitHelper(timeout_duration) }"
+  "try_lock_for(timeout_duration) { return TimedWaitHelper((now() + timeout_duration)) }"
 
 def FiberTimedMutex_try_lock_until : String :=
   "try_lock_until(timeout_time) { return TimedWaitHelper(timeout_time) }"
 
 def FiberRecursiveMutex_lock : String :=
-  "lock() { if (((_occupied_count != 0) && (_owner_id != GetId()))) { _queue.Wait(cast(init())) }; LockHelper() }"
+  "lock() { while (((_occupied_count != 0) && (_owner_id != GetId()))) { _queue.Wait(cast(init())) }; LockHelper() }"
 
 def FiberRecursiveMutex_try_lock : String :=
   "try_lock() { if (((_occupied_count != 0) && (_owner_id != GetId()))) { return false }; LockHelper(); return true }"
 
 def FiberRecursiveMutex_unlock : String :=
-  "unlock() { (_occupied_count--); if ((_occupied_count == 0)) { (_owner_id = 0) } }"
+  "unlock() { (_occupied_count--); if ((_occupied_count == 0)) { (_owner_id = 0); _queue.NotifyOne() } }"
 
 def FiberRecursiveMutex_LockHelper : String :=
   "LockHelper() { (_occupied_count++); (_owner_id = GetId()) }"
 
 def FiberRecursiveTimedMutex_TimedWaitHelper : String :=
-  "TimedWaitHelper(timeout) { var r = true; if (((_occupied_count != 0) && (_owner_id != GetId()))) { (r = (_queue.Wait(timeout) == Ready)) }; if (r) { LockHelper() }; return r }"
+  "TimedWaitHelper(timeout) { var r = true; while (((r && (_occupied_count != 0)) && (_owner_id != GetId()))) { (r = (_queue.Wait(timeout) == Ready)) }; if (r) { LockHelper() }; return r }"
 
 def FiberRecursiveTimedMutex_try_lock_for : String :=
-  "try_lock_for(timeout_duration) { return TimedWaitHelper(timeout_duration) }"
+  "try_lock_for(timeout_duration) { return TimedWaitHelper((now() + timeout_duration)) }"
 
 def FiberRecursiveTimedMutex_try_lock_until : String :=
   "try_lock_until(timeout_time) { return TimedWaitHelper(timeout_time) }"
 
 def FiberSharedMutex_lock : String :=
-  "lock() { if (_occupied) { _exclusive_queue.Wait(cast(init())) }; LockHelper() }"
+  "lock() { while (_occupied) { _exclusive_queue.Wait(cast(init())) }; LockHelper() }"
 
 def FiberSharedMutex_try_lock : String :=
   "try_lock() { if (_occupied) { return false }; LockHelper(); return true }"
 
 def FiberSharedMutex_unlock : String :=
-  "unlock() { var unlock_shared = ((!_shared_queue.Empty()) && (_exclusive_queue.Empty() || (GetRandNumber(2) == 0))); (_occupied = false); if (unlock_shared) { _shared_queue.NotifyAll() } else { _exclusive_queue.NotifyOne() } }"
+  "unlock() { (_occupied = false); _shared_queue.NotifyAll(); _exclusive_queue.NotifyOne() }"
 
 def FiberSharedMutex_lock_shared : String :=
-  "lock_shared() { if ((_occupied && _exclusive_mode)) { _exclusive_queue.Wait(cast(init())) }; SharedLockHelper() }"
+  "lock_shared() { while ((_occupied && _exclusive_mode)) { _shared_queue.Wait(cast(init())) }; SharedLockHelper() }"
 
 def FiberSharedMutex_try_lock_shared : String :=
   "try_lock_shared() { if ((_occupied && _exclusive_mode)) { return false }; SharedLockHelper(); return true }"
@@ -457,16 +457,16 @@ def FiberSharedMutex_SharedLockHelper : String :=
   "SharedLockHelper() { (_occupied = true); (_exclusive_mode = false); (_shared_owners_count++) }"
 
 def FiberSharedTimedMutex_TimedWaitHelper : String :=
-  "TimedWaitHelper(timeout, exclusive) { var r = true; if ((_occupied && (exclusive || _exclusive_mode))) { if (exclusive) { (r = (_exclusive_queue.Wait(timeout) == Ready)) } else { (r = (_shared_queue.Wait(timeout) == Ready)) } }; if (r) { SharedLockHelper() }; return r }"
+  "TimedWaitHelper(timeout, exclusive) { var r = true; while (((r && _occupied) && (exclusive || _exclusive_mode))) { if (exclusive) { (r = (_exclusive_queue.Wait(timeout) == Ready)) } else { (r = (_shared_queue.Wait(timeout) == Ready)) } }; if (r) { if (exclusive) { LockHelper() } else { SharedLockHelper() } }; return r }"
 
 def FiberSharedTimedMutex_try_lock_for : String :=
-  "try_lock_for(timeout_duration) { return TimedWaitHelper(timeout_duration, true) }"
+  "try_lock_for(timeout_duration) { return TimedWaitHelper((now() + timeout_duration), true) }"
 
 def FiberSharedTimedMutex_try_lock_until : String :=
   "try_lock_until(timeout_time) { return TimedWaitHelper(timeout_time, true) }"
 
 def FiberSharedTimedMutex_try_lock_shared_for : String :=
-  "try_lock_shared_for(timeout_duration) { return TimedWaitHelper(timeout_duration, false) }"
+  "try_lock_shared_for(timeout_duration) { return TimedWaitHelper((now() + timeout_duration), false) }"
 
 def FiberSharedTimedMutex_try_lock_shared_until : String :=
   "try_lock_shared_until(timeout_time) { return TimedWaitHelper(timeout_time, false) }"
@@ -544,10 +544,10 @@ def FiberTlsProxy_assign_move : String :=
   "operator=(other) { (_i = other._i); return (*this) }"
 
 def FiberTlsProxy_assign_copy : String :=
-  "operator=(other) { if ((Get() == other.Get())) { return (*this) }; SetDefault(GetImpl(other._i), _i); return (*this) }"
+  "operator=(other) { Set(GetImpl(other._i), _i); return (*this) }"
 
 def FiberTlsProxy_assign_conv : String :=
-  "operator=(other) { (_i = other._i); return (*this) } || operator=(other) { SetDefault(GetImpl(other._i), _i); return (*this) }"
+  "operator=(other) { (_i = other._i); return (*this) } || operator=(other) { Set(GetImpl(other._i), _i); return (*this) }"
 
 def FiberTlsProxy_ctor_default : String :=
   "ThreadLocalPtrProxy<Type>() {  }"
@@ -565,7 +565,7 @@ def FiberSched_Sleep : String :=
   "Sleep(ns) { if ((ns <= GetTimeNs())) { return  }; var sleep_list = operator[](_sleep_list, ns); var fiber = sCurrent; sleep_list.PushBack(cast(fiber)); Suspend() }"
 
 def FiberSched_SleepPreemptive : String :=
-  "SleepPreemptive(ns) { (ns += GetRandNumber(GetFaultSleepTime())); Sleep(ns); if ((_time <= ns)) { var it = _sleep_list.find(ns); if (operator->(it).second.Empty()) { _sleep_list.erase(ns) } } }"
+  "SleepPreemptive(ns) { (ns += GetRandNumber(GetFaultSleepTime())); Sleep(ns); if (var it = _sleep_list.find(ns); (CXXRewrittenBinaryOperator((!operator==(it, _sleep_list.end()))) && operator->(it).second.Empty())) { _sleep_list.erase(init(it)) } }"
 
 def FiberSched_Schedule : String :=
   "Schedule(fiber) { fiber.SetState(Waiting); _queue.PushBack(cast(fiber)); if ((!_running)) { (_running = true); RunLoop(); (_running = false) } }"
@@ -625,7 +625,7 @@ def FaultCondVar_notify_all : String :=
   "notify_all() { InjectFault(); notify_all(); InjectFault() }"
 
 def Sched_RunLoop : String :=
-  "RunLoop() { while (((!_queue.Empty()) || (!_sleep_list.empty()))) { if (_queue.Empty()) { AdvanceTime() }; WakeUpNeeded(); var next = GetNext(); (sCurrent = next); if ((gHooks.on_resume != nullptr)) { gHooks.on_resume(gHooks.ctx, next.GetId()) }; TickTime(); next.Resume(); if (((next.GetState() == Completed) && (!next.IsThreadAlive()))) { delete(next) } }; (sCurrent = nullptr) }"
+  "RunLoop() { while (((!_queue.Empty()) || (!_sleep_list.empty()))) { if (_queue.Empty()) { AdvanceTime() }; WakeUpNeeded(); if (_queue.Empty()) { continue }; var next = GetNext(); (sCurrent = next); if ((gHooks.on_resume != nullptr)) { gHooks.on_resume(gHooks.ctx, next.GetId()) }; TickTime(); next.Resume(); if (((next.GetState() == Completed) && (!next.IsThreadAlive()))) { delete(next) } }; (sCurrent = nullptr) }"
 
 def Sched_Schedule : String :=
   "Schedule(fiber) { fiber.SetState(Waiting); _queue.PushBack(cast(fiber)); if ((!_running)) { (_running = true); RunLoop(); (_running = false) } }"
@@ -643,7 +643,7 @@ def Sched_Sleep : String :=
   "Sleep(ns) { if ((ns <= GetTimeNs())) { return  }; var sleep_list = operator[](_sleep_list, ns); var fiber = sCurrent; sleep_list.PushBack(cast(fiber)); Suspend() }"
 
 def Sched_SleepPreemptive : String :=
-  "SleepPreemptive(ns) { (ns += GetRandNumber(GetFaultSleepTime())); Sleep(ns); if ((_time <= ns)) { var it = _sleep_list.find(ns); if (operator->(it).second.Empty()) { _sleep_list.erase(ns) } } }"
+  "SleepPreemptive(ns) { (ns += GetRandNumber(GetFaultSleepTime())); Sleep(ns); if (var it = _sleep_list.find(ns); (CXXRewrittenBinaryOperator((!operator==(it, _sleep_list.end()))) && operator->(it).second.Empty())) { _sleep_list.erase(init(it)) } }"
 
 def Sched_WakeUpNeeded : String :=
   "WakeUpNeeded() { var iter_to_remove = _sleep_list.end(); for (var it = _sleep_list.begin(); CXXRewrittenBinaryOperator((!operator==(it, _sleep_list.end()))); operator++(it, 0)) { if ((operator->(it).first > _time)) { operator=(iter_to_remove, it); break }; _queue.PushAll(move(operator->(it).second)) }; if (CXXRewrittenBinaryOperator((!operator==(iter_to_remove, _sleep_list.begin())))) { _sleep_list.erase(init(_sleep_list.begin()), init(iter_to_remove)) } }"
@@ -733,7 +733,7 @@ def Fault_SetState : String :=
   "SetState(state) { _count.store(state, rlx) }"
 
 def Fault_SetSeed : String :=
-  "SetSeed(new_seed) { (sSeed = new_seed); eng.seed(new_seed) }"
+  "SetSeed(new_seed) { (sSeed = new_seed); eng.seed(new_seed); (sRandCount = 0) }"
 
 def Fault_GetRandNumber : String :=
   "GetRandNumber(max) { (sRandCount++); if ((gHooks.rand != nullptr)) { if (var r = gHooks.rand(gHooks.ctx, max); (r >= 0)) { return cast(r) } }; return (operator()(eng) % max) }"
@@ -1091,5 +1091,101 @@ def WhenAny_front : String :=
 
 def Join_front : String :=
   "Join(futures) { CheckSameError(); return When(pack(move(futures))) } || Join(begin, count) { return When(begin, count) } || Join(begin, end) { return Join(begin, cast((end - begin))) }"
+
+def Destroy_await_suspend : String :=
+  "await_suspend(handle) { var promise = handle.promise(); return promise.SetResult() }"
+
+def PromiseType_initial_suspend : String :=
+  "initial_suspend() { ifc (Lazy) { return cast(init()) } else { return cast(init()) } }"
+
+def PromiseType_unhandled_exception : String :=
+  "unhandled_exception() { Store(current_exception()) }"
+
+def PromiseType_return_value : String :=
+  "return_value(value) { Store(forward(value)) }"
+
+def PromiseType_Call : String :=
+  "Call() { var next = Curr(); next.resume() }"
+
+def PromiseType_Drop : String :=
+  "Drop() { Store(cast(init())); SetResult().resume() }"
+
+def PromiseType_Impl : String :=
+  "Impl(caller) { (_executor = move(DownCast(caller)._executor)) }"
+
+def PromiseType_Here : String :=
+  "Here(caller) { Impl(caller); Call(); return nullptr }"
+
+def PromiseType_Next : String :=
+  "Next(caller) { Impl(caller); return Curr() }"
+
+def PromiseTypeDeleter_Delete : String :=
+  "Delete(core) { var promise = DownCast(core); var handle = promise.Handle(); handle.destroy() }"
+
+def AwaitAwaiter_await_suspend : String :=
+  "await_suspend(handle) { return init(init((*_core))).SetCallback(handle.promise()) } || await_suspend(handle) { var caller_handle = init(init((*_core))); (_core = operator&(handle.promise())); return caller_handle.SetCallback((*this)) }"
+
+def AwaitAwaiter_Call : String :=
+  "Call() { _core._executor.Submit((*_core)) }"
+
+def AwaitEvent_Impl : String :=
+  "Impl(caller) { if (SubEqual(1)) { ifc (Sticky) { var curr = cast(next); operator->(curr._executor).Submit((*curr)) } else { var curr = cast(next); ifc (SymmetricTransfer) { return Step(caller, (*curr)) } else { (curr = curr.Here(caller)) } } }; return Noop() }"
+
+def MultiAwaitAwaiter_await_ready : String :=
+  "await_ready() { return operator==(Get(acq), 1) }"
+
+def MultiAwaitAwaiter_await_suspend : String :=
+  "await_suspend(handle) { (next = operator&(handle.promise())); return (!SubEqual(1)) }"
+
+def AwaitSingleAwaiter_await_ready : String :=
+  "await_ready() { return _result.Ready() }"
+
+def AwaitSingleAwaiter_await_suspend : String :=
+  "await_suspend(handle) { return _result.SetCallback(handle.promise()) }"
+
+def AwaitSingleAwaiter_await_resume_unique : String :=
+  "await_resume() { return move(_result.Get()).Ok() }"
+
+def AwaitSingleAwaiter_await_resume_shared : String :=
+  "await_resume() { return as_const(_result.Get()).Ok() }"
+
+def TransferAwaiter_await_suspend : String :=
+  "await_suspend(handle) { _caller.StoreCallback(handle.promise()); var next = MoveToCaller((&_caller.core)); return next.Next(handle.promise()) }"
+
+def TransferSingleAwaiter_await_suspend : String :=
+  "await_suspend(handle) { _result.StoreCallback(handle.promise()); var next = MoveToCaller(_result.Get()); return next.Next(handle.promise()) }"
+
+def TransferSingleAwaiter_await_resume : String :=
+  "await_resume() { return move(_result.Get()).Ok() }"
+
+def AwaitOnEvent_Impl : String :=
+  "Impl(_) { ifc (Single) { operator->(job._executor).Submit((*job)) } else { if (SubEqual(1)) { operator->(job._executor).Submit((*job)) } }; return Noop() }"
+
+def AwaitOnAwaiter_await_suspend : String :=
+  "await_suspend(handle) { var core = handle.promise(); (core._executor = (&_executor)); var caller_handle = init((*job)); (job = operator&(core)); if ((!caller_handle.SetCallback((*this)))) { _executor.Submit(core) } }"
+
+def MultiAwaitOnAwaiter_await_suspend : String :=
+  "await_suspend(handle) { var core = handle.promise(); (core._executor = (&_executor)); (job = operator&(core)); if (SubEqual(1)) { _executor.Submit(core) } }"
+
+def OnAwaiter_await_suspend : String :=
+  "await_suspend(handle) { var promise = handle.promise(); (promise._executor = (&_executor)); _executor.Submit(promise) }"
+
+def Yield_await_suspend : String :=
+  "await_suspend(handle) { var promise = handle.promise(); promise._executor.Submit(promise) }"
+
+def CurrentAwaiter_await_suspend : String :=
+  "await_suspend(handle) { var promise = handle.promise(); (_executor = promise._executor.Get()); ifc (Yield) { _executor.Submit(promise) } else { return false } }"
+
+def CurrentAwaiter_await_resume : String :=
+  "await_resume() { return (*_executor) }"
+
+def SetCallbacksStatic : String :=
+  "SetCallbacksStatic(event, handles) { decl StaticAssertDecl; var wait_count = lambda{ ifc ((!Event::kShared)) { var setter = lambda{ return handle.SetCallback(event) }; return fold(cast(setter(handles))) } else { var setter = lambda{ ifc (is_same_v) { return handle.SetCallback(event) } else { return handle.SetCallback(event.callbacks[(callback_count++)]) } }; return fold(cast(setter(handles))) } }(); event.count.fetch_sub((sizeof... - wait_count), rlx) }"
+
+def SetCallbacksDynamic : String :=
+  "SetCallbacksDynamic(event, it, count) { var wait_count = 0; for (var i = 0; (i != count); (++i)) { ifc (is_same_v) { (wait_count += cast(it.GetHandle().SetCallback(event))) } else { (wait_count += cast(it.GetHandle().SetCallback(event.callbacks[i]))) }; (++it) }; event.count.fetch_sub((count - wait_count), rlx) }"
+
+def EventHelperCallback_Here : String :=
+  "Here(caller) { return event.GetCall().Here(caller) }"
 
 end Yaclib.Skeletons
